@@ -8,7 +8,7 @@ import z3
 from pyvc.prop import Unit
 from pyvc.values import strval, SV, STR, OSTR, INT, BOOL, DEC, TSeq, TNT, term, is_sym, fresh, fresh_term
 from pyvc import omap as O, models as M, stdmodels as SM, simobj as SO
-from pyvc.execu import HObj, NTVal, PyRaise, LoopSpec, field_slot, local_slot
+from pyvc.execu import loop_targets, assigned_from, first_assigned, HObj, NTVal, PyRaise, LoopSpec, field_slot, local_slot
 from contracts import convert as CV
 from contracts import timing as T
 
@@ -211,11 +211,11 @@ class ConvertWarps(Unit):
             lists = [T.bv_parse(bps), T.bv_parse(sts)]
 
             def inv(ex_, fr, i, vals):
-                L = fr.locals["beat_values"].fields["data"].t
+                L = fr.locals[loop_targets(fr.fi, 0)[0]].fields["data"].t
                 return [("no-negative-so-far", z3.Not(anyneg()(L, i)))]
 
             def using(ex_, fr, i, vals):
-                L = fr.locals["beat_values"].fields["data"].t
+                L = fr.locals[loop_targets(fr.fi, 0)[0]].fields["data"].t
                 ex_.ghost["warps_L"] = L
                 return anyneg_unfold(L, i)
 
@@ -321,7 +321,7 @@ class Convert(Unit):
         def using(ex_, fr, i, vals):
             return unfold(i)
 
-        slot = field_slot("charts", lambda ex_, fr: fr.locals["output_simfile"].fields["_charts"], "data", TSeq(SO.TChart(D["tgt_chart"])))
+        slot = field_slot("charts", lambda ex_, fr: fr.locals[first_assigned(fr.fi, 0)].fields["_charts"], "data", TSeq(SO.TChart(D["tgt_chart"])))
         ex.loop_specs[(Q + "_convert", 0)] = LoopSpec([slot], inv, using)
         fn = ex.closure_of(Q + "_convert")
         kind, r = ex.run_function(fn, [], dict(simfile=src, output_simfile_type=D["tgt_sim"], output_chart_type=D["tgt_chart"],
